@@ -329,10 +329,9 @@ def run_dir_mode(a: str, b: str, o, xml: str, rels: list[str]) -> dict:
     if verbosity is None or verbosity >= 2:
         n = 0
         for line in ANSI.sub("", log).splitlines():
-            if "INFO" in line:
-                m = re.search(r"(\d+)", line.split("]", 1)[-1])
-                if m:
-                    n = int(m.group(1))
+            m = re.match(r"\s*\[\s*INFO\s*\]\D*(\d+)", line)     # the summary's only INFO line
+            if m:
+                n = int(m.group(1))
         obs["orphans"] = n
     obs["suites"] = sorted(obs["suites"]) if obs["suites"] is not None else None
     return obs
@@ -800,7 +799,7 @@ def replay_witness(ctx, entry):
 
 
 def replay(ctx, payload):
-    case = payload.get("case") or payload.get("first_mismatch", {}).get("case")
+    case = payload.get("case") or (payload.get("first_mismatch") or {}).get("case")
     if case is None:
         print("replay: no case in the replay file (proof / driver build broken: see 'broken')")
         return 1
